@@ -198,14 +198,19 @@ class Vt100Parser:
 
         :param data: Input string (unicode).
         """
-        # Handle bracketed paste. (We bypass the parser that matches all other
-        # key presses and keep reading input until we see the end mark.)
-        # This is much faster then parsing character by character.
-        if self._in_bracketed_paste:
-            self._paste_buffer += data
-            end_mark = "\x1b[201~"
+        # (This is a loop rather than a recursive call for the remaining input,
+        # because one read can contain any number of pastes.)
+        while True:
+            # Handle bracketed paste. (We bypass the parser that matches all
+            # other key presses and keep reading input until we see the end
+            # mark.) This is much faster then parsing character by character.
+            if self._in_bracketed_paste:
+                self._paste_buffer += data
+                end_mark = "\x1b[201~"
 
-            if end_mark in self._paste_buffer:
+                if end_mark not in self._paste_buffer:
+                    return
+
                 end_index = self._paste_buffer.index(end_mark)
 
                 # Feed content to key bindings.
@@ -214,21 +219,21 @@ class Vt100Parser:
 
                 # Quit bracketed paste mode and handle remaining input.
                 self._in_bracketed_paste = False
-                remaining = self._paste_buffer[end_index + len(end_mark) :]
+                data = self._paste_buffer[end_index + len(end_mark) :]
                 self._paste_buffer = ""
 
-                self.feed(remaining)
-
-        # Handle normal input character by character.
-        else:
-            for i, c in enumerate(data):
-                if self._in_bracketed_paste:
-                    # Quit loop and process from this position when the parser
-                    # entered bracketed paste.
-                    self.feed(data[i:])
-                    break
+            # Handle normal input character by character.
+            else:
+                for i, c in enumerate(data):
+                    if self._in_bracketed_paste:
+                        # Quit loop and process from this position when the
+                        # parser entered bracketed paste.
+                        data = data[i:]
+                        break
+                    else:
+                        self._input_parser.send(c)
                 else:
-                    self._input_parser.send(c)
+                    return
 
     def flush(self) -> None:
         """
